@@ -777,3 +777,28 @@ def c10m(ctx):
     rets = [r for r in returns_of(fn.node) if r.value is not None]
     ok = bool(rets) and all(is_call(r.value, 'GeomCoverage') and const_value(keyword(r.value, 'clip', 2), 0) is True for r in rets)
     ctx.check(ok, 'load_limited_to:clipping-coverage', 'the limit is a clipping GeomCoverage', fn)
+
+
+@rule('C10.n', floor=2)
+def c10n(ctx):
+    """pixels well inside the permitted area keep their content, whatever the order of the polygons: the clip mask is painted polygon
+    after polygon -- exterior visible, holes masked -- so a polygon lying in the hole of another one (an island in a lake) has to be
+    painted *after* the polygon with the hole, or the hole wipes it out.  The parts are painted in an order that puts enclosing polygons
+    first: sorted by the size of their extent, largest first"""
+    fn = ctx.fn('mapproxy/image/mask.py:image_mask_from_geom')
+    draws = [x for x in fn.walk() if is_call(x, 'draw_polygon')]
+    if not draws:
+        raise Undecided('image_mask_from_geom: draw_polygon calls not found')
+    ok = True
+    for x in draws:
+        loop = enclosing(x, ast.For)
+        it = fn.canon.expr(loop.iter) if loop is not None else None
+        srt = it is not None and is_call(it, 'sorted') and keyword(it, 'key', 1) is not None and const_value(keyword(it, 'reverse', 2), 0) is True
+        # (no second, unordered loop around it)
+        outer = enclosing(loop, ast.For) if loop is not None else None
+        ok = ok and srt and outer is None
+    ctx.check(ok, 'image_mask_from_geom:enclosing-polygons-first', 'every polygon is painted from a list sorted by size, largest first', fn,
+              fail='image_mask_from_geom paints the polygons in the order they come in: the hole of a polygon painted later wipes out an island '
+                   'painted before it')
+    holes = [x for x in fn.walk_all() if isinstance(x, ast.Attribute) and x.attr == 'interiors']
+    ctx.check(bool(holes), 'image_mask_from_geom:holes-masked', 'the holes of a polygon are masked again after its exterior was painted', fn)
